@@ -12,7 +12,11 @@
 (*         (the docs: such a path "is re-written" relative to a component  *)
 (*         directory - the file the class declares is the converted path)  *)
 (* A class record is                                                       *)
-(*   bases : sequence of earlier classes, <<>> meaning (Component,)        *)
+(*   plain : TRUE for a mixin that is not a Component (docs: "other classes *)
+(*           that have a nested Media class"); it has only plain bases and *)
+(*           no assets; a Component class lists its bases and gets         *)
+(*           `Component` appended when none of them is a Component         *)
+(*   bases : sequence of earlier classes                                   *)
 (*   media : "none" (no nested Media) | "null" (Media = None) | "def"      *)
 (*   lists : [js, all, print] own declared lists (Media.js, Media.css[m])  *)
 (*   ext   : "true" | "false" | "list" ;  extl : the listed classes         *)
@@ -23,6 +27,7 @@ EXTENDS Naturals, Sequences, FiniteSets, TLC
 Types == {"js", "all", "print"}          \* JS, and CSS per media type
 Pairs == {"template", "js", "css"}       \* template/template_file, js/js_file, css/css_file
 RelOffset == 10                          \* id of the converted path of file f is f + RelOffset
+OBJ == 100                               \* Python's `object` (class 0, Component, derives from it)
 
 Range(s) == {s[i] : i \in 1..Len(s)}
 Min(S) == CHOOSE x \in S : \A y \in S : x <= y
@@ -32,14 +37,16 @@ N(K) == Len(K.cls)
 Res(K, f) == IF f \in Range(K.rel) THEN f + RelOffset ELSE f
 
 \* The list class c declares for type t (after path conversion); empty without own Media.
+Real(K, c) == c \in 1..N(K)               \* a class of the case (not Component / object)
+Plain(K, c) == Real(K, c) /\ K.cls[c].plain
 Decl(K, c, t) ==
-  IF c = 0 \/ K.cls[c].media # "def" THEN <<>>
+  IF ~Real(K, c) \/ K.cls[c].media # "def" THEN <<>>
   ELSE [i \in 1..Len(K.cls[c].lists[t]) |-> Res(K, K.cls[c].lists[t][i])]
 
 \* The bases selected by the class's own Media.extend: all bases / none / the listed
 \* classes.  A class without own Media has no `extend`, i.e. the default: all bases.
 Selected(K, c) ==
-  IF c = 0 THEN <<>>
+  IF ~Real(K, c) THEN <<>>
   ELSE LET r == K.cls[c] IN
        IF r.media # "def" THEN r.bases
        ELSE CASE r.ext = "true"  -> r.bases
@@ -79,7 +86,12 @@ OrderOK(obs, K, c, t) ==                                              \* a linea
 MediaOK(obs, K, c, t) == FilesOK(obs, K, c, t) /\ OnceOK(obs) /\ OrderOK(obs, K, c, t)
 
 (* ---- C3 linearisation (Python's MRO), transcribed -------------------------- *)
-BasesOf(K, c) == IF c = 0 THEN <<>> ELSE IF K.cls[c].bases = <<>> THEN <<0>> ELSE K.cls[c].bases
+BasesOf(K, c) ==          \* cls.__bases__
+  IF c = OBJ THEN <<>>
+  ELSE IF c = 0 THEN <<OBJ>>
+  ELSE LET bs == K.cls[c].bases IN
+       IF K.cls[c].plain THEN (IF bs = <<>> THEN <<OBJ>> ELSE bs)
+       ELSE IF \E i \in 1..Len(bs) : ~K.cls[bs[i]].plain THEN bs ELSE Append(bs, 0)
 
 RECURSIVE C3Merge(_, _, _)
 C3Merge(lists, acc, fuel) ==
@@ -94,14 +106,14 @@ C3Merge(lists, acc, fuel) ==
 
 RECURSIVE Mro(_, _)
 Mro(K, c) ==
-  IF c = 0 THEN [ok |-> TRUE, seq |-> <<0>>]
+  IF c = OBJ THEN [ok |-> TRUE, seq |-> <<OBJ>>]
   ELSE LET bs == BasesOf(K, c)
            ms == [i \in 1..Len(bs) |-> Mro(K, bs[i])] IN
        IF \E i \in 1..Len(bs) : ~ms[i].ok THEN [ok |-> FALSE, seq |-> <<>>]
-       ELSE C3Merge([i \in 1..Len(bs) |-> ms[i].seq] \o <<bs>>, <<c>>, N(K) + 2)
+       ELSE C3Merge([i \in 1..Len(bs) |-> ms[i].seq] \o <<bs>>, <<c>>, N(K) + 3)
 
 (* ---- template / js / css: the pair rule ----------------------------------- *)
-Kind(K, c, p) == IF c = 0 THEN "none" ELSE K.cls[c].attr[p]
+Kind(K, c, p) == IF ~Real(K, c) \/ K.cls[c].plain THEN "none" ELSE K.cls[c].attr[p]
 
 \* Defining both members of a pair in one class is rejected.
 Rejected(K, c) == \E p \in Pairs : Kind(K, c, p) = "both"
@@ -151,7 +163,8 @@ AccessAttr(c, p, via) ==
   /\ UNCHANGED <<kase, memo>>
 
 Vias == {"cls", "inst"}
-Access == \E c \in 0..N(kase), via \in Vias :
+Accessible(K) == {0} \cup {c \in 1..N(K) : ~K.cls[c].plain}      \* the classes that have .media etc.
+Access == \E c \in Accessible(kase), via \in Vias :
             AccessMedia(c, via) \/ \E p \in Pairs : AccessAttr(c, p, via)
 
 OrderIndependent ==
